@@ -164,8 +164,31 @@ HARNESS_EXTRA = {
     "h_dns": [],
 }
 
+def prune(keep_rh, san):
+    """disk is limited: keep the build products of the current tree and of the two most recently used other trees"""
+    import shutil, glob, time
+    ds = [d for d in glob.glob(os.path.join(BUILD, "bin-*-" + san)) + glob.glob(os.path.join(BUILD, "lib-*-" + san)) if keep_rh not in d]
+    ds.sort(key=os.path.getmtime, reverse=True)
+    hashes = []
+    for d in ds:
+        h = os.path.basename(d).split("-")[1]
+        if h not in hashes: hashes.append(h)
+    for d in ds:
+        h = os.path.basename(d).split("-")[1]
+        if h in hashes[2:] and time.time() - os.path.getmtime(d) > 1800:
+            shutil.rmtree(d, ignore_errors=True)
+    objdir = os.path.join(BUILD, "obj-%s" % san)
+    if os.path.isdir(objdir):
+        for f in os.listdir(objdir):
+            fp = os.path.join(objdir, f)
+            try:
+                if time.time() - os.path.getatime(fp) > 6 * 3600 and time.time() - os.path.getmtime(fp) > 6 * 3600: os.remove(fp)
+            except OSError: pass
+
 def build_harness(name, repo="/repo", san="asan", extra_libs=()):
     libdir, incs, rh = build_lib(repo, san)
+    try: prune(rh, san)
+    except Exception: pass
     hh = file_hash(verif_headers())
     srcs = COMMON + HARNESS_EXTRA.get(name, []) + ["h/%s.cpp" % name]
     objdir = os.path.join(BUILD, "obj-%s" % san)
